@@ -123,6 +123,7 @@ where
             let source = request.header("Udp-Bind-Source", "");
             ctx_lock
                 .set_target(target)
+                .set_udp_idle_timeout()
                 .set_callback(FrameChannelCallback { session_id, inline });
             if source.is_empty() {
                 ctx_lock.set_feature(Feature::UdpForward);
